@@ -457,8 +457,10 @@ fn run_hist(h: Hist, rng: &mut Rng, out: &mut Out) {
         out.count("interleaved_chunks", rd.interleaved_chunks);
         let witness = || {
             json!({"schedule": h.schedule, "chunk_size": cs,
-                "chunk_order": h.wire_chunks.iter().map(|c| json!({"msg": c.0, "csid": h.csids[c.0], "bytes": c.1.len()})).collect::<Vec<_>>(),
-                "messages": h.msgs.iter().map(|m| m.brief()).collect::<Vec<_>>(), "first_overlap_offset": first_overlap, "wire": crate::rng::hex_short(&wire, 300)})
+                "chunks": h.wire_chunks.len(), "message_count": h.msgs.len(),
+                // (long histories: the first 300 chunks and 60 messages; the case number and seed rebuild the rest)
+                "chunk_order": h.wire_chunks.iter().take(300).map(|c| json!({"msg": c.0, "csid": h.csids[c.0], "bytes": c.1.len()})).collect::<Vec<_>>(),
+                "messages": h.msgs.iter().take(60).map(|m| m.brief()).collect::<Vec<_>>(), "first_overlap_offset": first_overlap, "wire": crate::rng::hex_short(&wire, 300)})
         };
         out.sample(|| witness());
         out.shape(mix(mix(h.msgs.len() as u64, crate::rng::fnv(h.schedule.as_bytes())), mix(first_overlap.map(|x| (x as u64).min(300)).unwrap_or(9999), h.wire_chunks.len() as u64)));
